@@ -303,7 +303,29 @@ def r_escape(ctx) -> RuleResult:
                     if not ok:
                         res.fail(Finding("R-ESCAPE", fi.module.rel, fi.qualname, norm(n), f"the grammar accepts attribute keys {sorted(g_keys - set(dmap))} the parser's table lacks: KeyError instead of {exc.name}", line=n.lineno))
             if isinstance(n, ast.Call) and isinstance(n.func, ast.Name) and n.func.id == "int" and n.args:
-                txt = norm(n.args[0])
+                # expand local names to the accessor chain they were bound to:  c = e.count(); int(c.getText())
+                arg = n.args[0]
+                txt = norm(arg)
+                for _ in range(3):
+                    changed = False
+                    for nm in [x for x in ast.walk(ast.parse(txt, mode="eval")) if isinstance(x, ast.Name)]:
+                        if nm.id in params_of(fi.node):
+                            continue
+                        d = single_def(fi.node, nm.id)
+                        if d is None:
+                            # an element of a typed accessor's list:  for c in ctx.node_index()
+                            its = [g.iter for x in ast.walk(fi.node) if isinstance(x, (ast.ListComp, ast.GeneratorExp, ast.SetComp, ast.DictComp)) for g in x.generators
+                                   if isinstance(g.target, ast.Name) and g.target.id == nm.id]
+                            its += [x.iter for x in ast.walk(fi.node) if isinstance(x, ast.For) and isinstance(x.target, ast.Name) and x.target.id == nm.id]
+                            if len(its) == 1:
+                                d = its[0]
+                        if d is not None and isinstance(d, (ast.Call, ast.Attribute, ast.Subscript)):
+                            import re as _re
+                            txt2 = _re.sub(rf"\b{nm.id}\b", norm(d), txt)
+                            if txt2 != txt:
+                                txt, changed = txt2, True
+                    if not changed:
+                        break
                 if "getText" not in txt:
                     continue
                 rule_name = None
@@ -315,7 +337,9 @@ def r_escape(ctx) -> RuleResult:
                     bad = [r for r, a in G.g4.items() if r not in G.g4_lex and a[0] == "cat" and len(a[1]) == 2 and a[1][0][0] == "tok"
                            and not (a[1][1][0] == "opt" and a[1][1][1] == ("ref", "count"))]
                     rule_name = "count" if not bad else None
-                ok = rule_name is not None and digits_only(rule_name)
+                if rule_name is None:
+                    raise AnalysisError(f"R-ESCAPE: cannot tell which grammar rule's text `{short(n)}` converts (in {fi.qualname})")
+                ok = digits_only(rule_name)
                 res.inst(fi.fq, short(n), "ok" if ok else "fail", detail=f"text of rule `{rule_name}` is a digit string by the grammar")
                 if not ok:
                     res.fail(Finding("R-ESCAPE", fi.module.rel, fi.qualname, norm(n), "int() of parse-tree text that the grammar does not restrict to digits: ValueError instead of the parser's exception", line=n.lineno))
